@@ -60,6 +60,54 @@ fn main() {
     let engine = std::env::var("HX_ENGINE").unwrap_or_else(|_| "printers".to_string());
     let mut cache: HashMap<String, HashMap<String, String>> = HashMap::new();
     let mut node = alias::NodeHandle::new();
+    let mode = args.get(1).cloned().unwrap_or_default();
+
+    // `gen` for the project engine: the children (one per case) are independent, run them in parallel
+    if mode == "gen" && engine != "alias" {
+        let seed: u64 = args[2].parse().expect("seed");
+        let n: u64 = args[3].parse().expect("n");
+        let start: u64 = args.get(4).map(|s| s.parse().expect("start")).unwrap_or(0);
+        let specs: Vec<String> =
+            (start..start + n).map(|i| project::spec_for_case(&mut Rng::new(seed, i), i, &prop())).collect();
+        for lines in parallel_map(&specs, |spec| run_one(spec)) {
+            for (req, _) in lines {
+                println!("{req}");
+            }
+        }
+        return;
+    }
+    // `run`: read everything, compile the distinct projects in parallel, answer in input order
+    if mode == "run" {
+        quiet_panics();
+        let input: Vec<String> = std::io::stdin()
+            .lines()
+            .map_while(Result::ok)
+            .filter(|l| !l.is_empty() && !l.starts_with('#'))
+            .collect();
+        let mut specs: Vec<String> = vec![];
+        for l in input.iter() {
+            let f: Vec<&str> = l.split('\t').collect();
+            if f[0].ends_with(".alias") || f[0].ends_with(".alias2") || f.len() < 2 {
+                continue;
+            }
+            if !specs.contains(&f[1].to_string()) {
+                specs.push(f[1].to_string());
+            }
+        }
+        for (spec, lines) in specs.iter().zip(parallel_map(&specs, |spec| run_one(spec))) {
+            cache.entry(spec.clone()).or_default().extend(lines);
+        }
+        let out = std::io::stdout();
+        let mut out = std::io::BufWriter::new(out.lock());
+        use std::io::Write;
+        for l in input.iter() {
+            let f: Vec<&str> = l.split('\t').collect();
+            let ans = answer(&mut cache, &mut node, &f);
+            writeln!(out, "{l}\t=>\t{ans}").unwrap();
+        }
+        out.flush().unwrap();
+        return;
+    }
     main_loop(
         &|r, i| {
             if engine == "alias" {
@@ -68,31 +116,58 @@ fn main() {
             let spec = project::spec_for_case(r, i, &prop());
             run_one(&spec).into_iter().map(|(req, _)| req).collect()
         },
-        &mut |f| {
-            // requests carry their engine in the op name, so corpus files may mix them
-            if f[0].ends_with(".alias") || f[0].ends_with(".alias2") {
-                return alias::run(&mut node, f);
-            }
-            if f.len() < 2 {
-                return "bad-op".to_string();
-            }
-            let spec = f[1].to_string();
-            let req = f.join("\t");
-            for attempt in 0..3 {
-                let known = cache.entry(spec.clone()).or_default();
-                if let Some(ans) = known.get(&req) {
-                    return ans.clone();
-                }
-                if attempt > 0 || known.is_empty() {
-                    for (r, a) in run_one(&spec) {
-                        cache.entry(spec.clone()).or_default().insert(r, a);
-                    }
-                }
-            }
-            match cache.get(&spec).and_then(|m| m.get(&req)) {
-                Some(ans) => ans.clone(),
-                None => "missing".to_string(),
-            }
-        },
+        &mut |f| answer(&mut cache, &mut node, f),
     );
+}
+
+/// `f(x)` for every `x`, on up to 6 threads, results in input order
+fn parallel_map<T: Send>(xs: &[String], f: impl Fn(&str) -> T + Sync) -> Vec<T> {
+    let workers = std::thread::available_parallelism().map(|n| n.get()).unwrap_or(2).min(6).max(1);
+    let next = std::sync::atomic::AtomicUsize::new(0);
+    let slots: Vec<std::sync::Mutex<Option<T>>> = xs.iter().map(|_| std::sync::Mutex::new(None)).collect();
+    std::thread::scope(|s| {
+        for _ in 0..workers {
+            s.spawn(|| loop {
+                let i = next.fetch_add(1, std::sync::atomic::Ordering::SeqCst);
+                if i >= xs.len() {
+                    break;
+                }
+                let v = f(&xs[i]);
+                *slots[i].lock().unwrap() = Some(v);
+            });
+        }
+    });
+    slots.into_iter().map(|m| m.into_inner().unwrap().expect("worker result")).collect()
+}
+
+/// the implementation's answer to one request (requests carry their engine in the op name, so
+/// corpus files may mix them)
+fn answer(
+    cache: &mut HashMap<String, HashMap<String, String>>,
+    node: &mut alias::NodeHandle,
+    f: &[&str],
+) -> String {
+    if f[0].ends_with(".alias") || f[0].ends_with(".alias2") {
+        return alias::run(node, f);
+    }
+    if f.len() < 2 {
+        return "bad-op".to_string();
+    }
+    let spec = f[1].to_string();
+    let req = f.join("\t");
+    for attempt in 0..3 {
+        let known = cache.entry(spec.clone()).or_default();
+        if let Some(ans) = known.get(&req) {
+            return ans.clone();
+        }
+        if attempt > 0 || known.is_empty() {
+            for (r, a) in run_one(&spec) {
+                cache.entry(spec.clone()).or_default().insert(r, a);
+            }
+        }
+    }
+    match cache.get(&spec).and_then(|m| m.get(&req)) {
+        Some(ans) => ans.clone(),
+        None => "missing".to_string(),
+    }
 }
